@@ -349,8 +349,17 @@ func (r *Run) bigByteLen(abs *Term) int {
 		return n
 	}
 	max := r.eng.maxBigBytes()
+	bs, fromBytes := r.bytesOfBig[abs.id]
 	for n := 0; n <= max; n++ {
-		if r.branch(c.ILt(abs, c.Int(pow256(n)))) {
+		cond := c.ILt(abs, c.Int(pow256(n)))
+		if fromBytes {
+			// |v| < 256^n  <=>  all bytes above the low n are zero (bit-vector form)
+			cond = c.Bool(true)
+			for i := 0; i < len(bs)-n; i++ {
+				cond = c.And(cond, c.Eq(bs[i], c.BV(8, 0)))
+			}
+		}
+		if r.branch(cond) {
 			r.bigLens[abs.id] = n
 			return n
 		}
